@@ -191,6 +191,33 @@ theorem C05_histories_fresh (fold : Str → Str) (c : Conv) (h : WF c) (hd : c.d
   rw [runOps_delim] at this
   exact this
 
+/-- **C05 (all five lookup structures).** After any history each of `prefix_map`,
+`synonym_to_prefix`, `reverse_prefix_map`, the trie and `pattern_map`, read as a function, is the
+function computed from the current records: a CURIE prefix maps to the URI prefix / canonical
+prefix of the record owning it, a URI prefix to the canonical prefix of its owner, and a canonical
+prefix to the (non-empty) pattern of its record. -/
+theorem C05_lookup_structures (fold : Str → Str) (c : Conv) (h : WF c) (ops : List AddOp)
+    (hr : ∀ op ∈ ops, RecOK op.r) :
+    let c' := runOps fold c ops
+    (∀ p, Dict.get c'.prefixMap p = (Spec.ownerP c'.records p).map (·.uri)) ∧
+    (∀ p, Dict.get c'.synToPrefix p = (Spec.ownerP c'.records p).map (·.pfx)) ∧
+    (∀ k, Dict.get c'.revMap k = (Spec.ownerU c'.records k).map (·.pfx)) ∧
+    (∀ k, Dict.get c'.trie k = (Spec.ownerU c'.records k).map (·.pfx)) ∧
+    (∀ p, Dict.get c'.patMap p = Spec.patternOf c'.records p) := by
+  have hw := C05_histories fold c h ops hr
+  exact ⟨hw.mirror.pm, hw.mirror.sp, hw.mirror.rm, hw.mirror.tr, hw.mirror.pat⟩
+
+/-- Non-vacuity for the pattern map: a record with a pattern is appended, a merge into it brings
+no pattern, a record with an empty pattern is appended: the map holds exactly the first pattern. -/
+example :
+    (let c := runOps id Conv.empty
+       [⟨⟨[71], [103, 47], [], [], some [94, 36]⟩, true, false⟩,
+        ⟨⟨[71], [104, 47], [], [], some [120]⟩, true, true⟩,
+        ⟨⟨[72], [105, 47], [], [], some []⟩, true, false⟩]
+     (Dict.get c.patMap [71], Dict.get c.patMap [72], c.records.length))
+    = (some [94, 36], none, 2) := by
+  decide
+
 /-- Non-vacuity: a history with a merge through a URI-prefix synonym, a rejection, and a
 case-insensitive merge; the synonym acquired by merge expands. -/
 example :
